@@ -56,7 +56,7 @@ SEEDS = [
  ('C19-2', '/tmp/wt_C19/_out/2', 'C19', 'biscuit_block_context(block_index == block_count): swap_remove panics inside the extern "C" function',
   {'C19': 'VIOLATION biscuit-capi::lib::biscuit_block_context::call-pre(vstd vec)[biscuit.0.context().swap_remove(block_index)]', 'history': 'first run NOT detected (function not under contract); caught after biscuit_block_context was added to unit capi'}),
  ('C04-1', '/tmp/wt_C04/_out/1', 'C04', 'a `check all` whose body matches nothing in its scoped world (check_match_all returns true vacuously)',
-  {'C04': 'NOT detected (exit 0): Rule::check_match_all is inside the engine, which enters the contracts as an oracle (listed under not_covered)'}),
+  {'C04': 'UNDECIDED (exit 2): the change removes the local `found` that the loop invariant of Rule::check_match_all names; the same defect written in place (`Ok(found)` -> `Ok(true)`) is a canary of unit engine and is rejected by check_match_all::ensures.decision', 'history': 'first run NOT detected (exit 0, check_match_all was inside the engine oracle); unit engine now puts find_match / check_match_all / query_match* under contract'}),
  ('C04-2', '/tmp/wt_C04/_out/2', 'C04', 'an authorizer-level scope (AuthorizerBuilder::scope) and a policy without its own `trusting` annotation',
   {'C04': 'VIOLATION token::authorizer::Authorizer::authorize_inner (precondition of lemma_tset at the policy query: the trusted set handed to the engine is not the specification one)', 'history': 'first run NOT detected (authorize_inner was an assumed callee); caught after unit authz put the decision composition under contract'}),
  ('C19-1', '/tmp/wt_C19/_out/1', 'C19', 'a token whose last next-key is secp256r1 (seal signature is DER, not 64 bytes): biscuit_sealed_size computed by arithmetic disagrees with what biscuit_serialize_sealed writes',
@@ -71,6 +71,15 @@ for sid, src, prop, needs, det in SEEDS:
     dst = '/verif/seeded/' + sid
     cj = os.path.join(src, 'confirm.json')
     if not os.path.exists(cj):
+        mj = os.path.join(dst, 'meta.json')
+        if os.path.exists(mj):       # already recorded (scratch worktree removed): refresh what the checks say
+            meta = json.load(open(mj))
+            if meta.get('checks') != det or meta.get('needs_to_manifest') != needs:
+                meta['checks'] = det
+                meta['needs_to_manifest'] = needs
+                json.dump(meta, open(mj, 'w'), indent=1)
+                print('updated', sid)
+            continue
         print('skip (not confirmed yet):', sid)
         continue
     conf = json.load(open(cj))
